@@ -22,3 +22,37 @@ Proof.
     apply Hout. rewrite map_length. exact Hlen.
   - exact Hl.
 Qed.
+
+(* ---------- the generator model: for EVERY well-formed Conv (Conv|Pool)* [Flatten Dense*] network *)
+From TLX Require Import Model.GenNet Model.Host Proofs.GenNetFacts Proofs.C01Facts.
+
+Lemma net_lanewise : forall (W : nat) m, (1 < W)%nat -> wf_spatial_model m = true ->
+  lanewise W (net_in m) (net_out m) (execZ (Z.of_nat W) (gen_net m)) (eval_model m).
+Proof.
+  intros W m HW Hwf inp Hlen.
+  destruct (gen_net_correct_words (Z.of_nat W) m inp ltac:(lia) Hwf Hlen) as [out [He [Hl Hlanes]]].
+  exists out. repeat split; assumption.
+Qed.
+
+Theorem net_counts : forall (W k : nat) m rows,
+  (1 < W)%nat -> wf_spatial_model m = true -> Z.of_nat (gsize (net_out m) k) < 2 ^ 31 ->
+  Forall (fun r => length r = net_in m) rows ->
+  forward_with_groupsum W (net_in m) (net_out m) k (execZ (Z.of_nat W) (gen_net m)) rows
+  = Some (map (per_row (net_out m) k (eval_model m)) rows).
+Proof.
+  intros W k m rows HW Hwf Hg HF. apply forward_with_groupsum_correct; try assumption.
+  apply net_lanewise; assumption.
+Qed.
+
+Theorem net_direct : forall (W : nat) m rows,
+  (1 < W)%nat -> wf_spatial_model m = true -> Forall (fun r => length r = net_in m) rows ->
+  forward_direct (execZ (Z.of_nat W) (gen_net m)) rows
+  = Some (map (fun r => map Z.b2z (eval_model m r)) rows).
+Proof.
+  intros W m rows HW Hwf Hrows. induction Hrows as [|r rest Hr _ IH]; [reflexivity|].
+  unfold forward_direct in *. cbn [fold_right map]. rewrite IH.
+  destruct (net_lanewise W m HW Hwf (map Z.b2z r) ltac:(rewrite map_length; exact Hr)) as [out [He [_ Hl]]].
+  rewrite He. cbn [option_map]. f_equal. f_equal.
+  specialize (Hl 0 ltac:(lia)). rewrite lane0_b2z in Hl. rewrite <- Hl.
+  rewrite map_map. apply map_ext. intros z. apply land_1_bit0.
+Qed.
